@@ -83,12 +83,15 @@ SendAll(bag, ms) == LET RECURSIVE F(_, _)
 Remove(bag, m) == bag (-) SetToBag({m})
 
 (* common tail of every node-level action: install the event record, ghost, judgement *)
-Finish(i, ev, a, rk, n2, isUp, st2, du2, ap2, gen, out, rd, choice) ==
+NoRep == [j |-> 0, to |-> 0, ok |-> FALSE]
+FinishX(i, ev, a, rk, n2, isUp, st2, du2, ap2, gen, out, rd, choice, rep) ==
     /\ node' = [node EXCEPT ![i] = n2]
     /\ up' = [up EXCEPT ![i] = isUp]
     /\ stor' = [stor EXCEPT ![i] = st2]
     /\ dur' = [dur EXCEPT ![i] = du2]
-    /\ app' = [app EXCEPT ![i] = ap2]
+    /\ app' = IF rep.j # 0 /\ rep.j # i /\ up[rep.j]
+              THEN [app EXCEPT ![i] = ap2, ![rep.j].reports = @ \cup {<<rep.to, rep.ok>>}]
+              ELSE [app EXCEPT ![i] = ap2]
     /\ UNCHANGED cfg
     /\ pre' = [up |-> up[i], node |-> node[i], stor |-> stor[i], handedTo |-> gh.handedTo[i]]
     /\ evt' = [ev |-> ev, n |-> i, a |-> a, rk |-> rk, hr0 |-> IF up[i] THEN HasReady(node[i], stor[i]) ELSE FALSE,
@@ -96,6 +99,8 @@ Finish(i, ev, a, rk, n2, isUp, st2, du2, ap2, gen, out, rd, choice) ==
     /\ gh' = GhostNext(gh, evt', n2, st2, du2, [applied |-> ap2.applied, sm |-> ap2.sm], isUp)
     /\ h' = Append(h, choice)
     /\ bad' = bad \cup Violations'
+Finish(i, ev, a, rk, n2, isUp, st2, du2, ap2, gen, out, rd, choice) ==
+    FinishX(i, ev, a, rk, n2, isUp, st2, du2, ap2, gen, out, rd, choice, NoRep)
 
 Gen(n1, n2) == SubSeqFrom(n2.msgs, Len(n1.msgs) + 1)
 
@@ -133,14 +138,17 @@ DeliverA(m, keep) ==
                THEN Finish(i, "Deliver", [m |-> m, keep |-> keep], "panic", node[i], FALSE, dur[i], dur[i],
                            [app[i] EXCEPT !.outstanding = 0, !.pending = <<>>, !.held = <<>>, !.queue = <<>>, !.reports = {}],
                            <<>>, <<>>, EmptyRd, [ev |-> "DeliverSpec", m |-> MsgKey(m), keep |-> keep, rt |-> rt])
-               ELSE Finish(i, "Deliver", [m |-> m, keep |-> keep], IF r.err THEN "err" ELSE "ok", r.n, TRUE, stor[i],
-                           dur[i], app[i], Gen(node[i], r.n), <<>>, EmptyRd,
-                           [ev |-> "DeliverSpec", m |-> MsgKey(m), keep |-> keep, rt |-> rt])
+               ELSE FinishX(i, "Deliver", [m |-> m, keep |-> keep], IF r.err THEN "err" ELSE "ok", r.n, TRUE, stor[i],
+                            dur[i], app[i], Gen(node[i], r.n), <<>>, EmptyRd,
+                            [ev |-> "DeliverSpec", m |-> MsgKey(m), keep |-> keep, rt |-> rt],
+                            IF m.ty = "Snap" /\ ~keep THEN [j |-> m.from, to |-> m.to, ok |-> TRUE] ELSE NoRep)
 
 DropA(m) ==
     /\ BagIn(m, net)
     /\ net' = Remove(net, m)
-    /\ UNCHANGED <<node, up, stor, dur, app, cfg, gh, rdi, bad>>
+    /\ app' = IF m.ty = "Snap" /\ m.from \in Ids /\ up[m.from]
+              THEN [app EXCEPT ![m.from].reports = @ \cup {<<m.to, FALSE>>}] ELSE app
+    /\ UNCHANGED <<node, up, stor, dur, cfg, gh, rdi, bad>>
     /\ pre' = NoPreRec /\ evt' = [NoEvtRec EXCEPT !.ev = "Drop"]
     /\ h' = Append(h, [ev |-> "DropSpec", m |-> MsgKey(m)])
 
@@ -319,5 +327,47 @@ RestartA(i) ==
        IN /\ net' = net /\ rdi' = rdi
           /\ Finish(i, "Restart", [applied |-> a, knobs |-> cfg[i]], IF n2.pan THEN "panic" ELSE "ok", n2, ~n2.pan,
                     st2, st2, ap2, <<>>, <<>>, EmptyRd, [ev |-> "Restart", n |-> i, applied |-> a, rt |-> rt])
+
+
+ReportSnapA(i, j, ok) ==
+    /\ Idle(i) /\ <<j, ok>> \in app[i].reports
+    /\ \E rt \in RtChoices(i) :
+         LET r == RawReportSnapshot(node[i], stor[i], cfg[i], j, ok, rt)
+         IN /\ net' = net /\ rdi' = rdi
+            /\ Finish(i, "ReportSnap", [j |-> j, ok |-> ok], IF r.n.pan THEN "panic" ELSE "ok", r.n, ~r.n.pan, stor[i], dur[i],
+                      [app[i] EXCEPT !.reports = @ \ {<<j, ok>>}], Gen(node[i], r.n), <<>>, EmptyRd,
+                      [ev |-> "ReportSnap", n |-> i, j |-> j, ok |-> ok, rt |-> rt])
+
+UnreachableA(i, j) ==
+    /\ Idle(i)
+    /\ \E rt \in RtChoices(i) :
+         SimpleCall(i, "Unreachable", [j |-> j], RawUnreachable(node[i], stor[i], cfg[i], j, rt),
+                    [ev |-> "Unreachable", n |-> i, j |-> j, rt |-> rt])
+
+RequestSnapA(i) ==
+    /\ Idle(i)
+    /\ SimpleCall(i, "RequestSnap", [x |-> 0], RawRequestSnapshot(node[i], stor[i]), [ev |-> "RequestSnap", n |-> i])
+
+(* the application takes a snapshot of its state machine at a durable applied index *)
+SnapPointOf(i) == Min(Min(app[i].applied, node[i].log.applied), Min(dur[i].hs.commit, StorLast(dur[i])))
+MakeSnapA(i) ==
+    /\ i \in Ids /\ up[i]
+    /\ LET s == SnapPointOf(i)
+       IN /\ s > 0 /\ s > dur[i].ti /\ stor[i].snapi < s /\ StorTermOK(dur[i], s)
+          /\ LET snap == [i |-> s, t |-> StorTerm(dur[i], s), conf |-> ConfAt(app[i], s),
+                          data |-> SelectSeq(app[i].sm, LAMBDA x : x[1] <= s)]
+                 upd(img) == [img EXCEPT !.snapi = s, !.snapt = snap.t, !.snapconf = snap.conf, !.snapdata = snap.data]
+             IN /\ net' = net /\ rdi' = rdi
+                /\ Finish(i, "MakeSnap", [i |-> s], "ok", node[i], TRUE, upd(stor[i]), upd(dur[i]), app[i],
+                          <<>>, <<>>, EmptyRd, [ev |-> "MakeSnap", n |-> i])
+
+CompactImg(img, k) == [img EXCEPT !.tt = StorTerm(img, k), !.ents = SubSeq(@, k - img.ti + 1, Len(@)), !.ti = k]
+CompactA(i, k) ==
+    /\ i \in Ids /\ up[i]
+    /\ k <= Min(SnapPointOf(i), StorLast(stor[i]))
+    /\ k > dur[i].ti /\ k > stor[i].ti /\ stor[i].snapi >= k
+    /\ net' = net /\ rdi' = rdi
+    /\ Finish(i, "Compact", [k |-> k], "ok", node[i], TRUE, CompactImg(stor[i], k), CompactImg(dur[i], k), app[i],
+              <<>>, <<>>, EmptyRd, [ev |-> "Compact", n |-> i, k |-> k])
 
 =============================================================================
